@@ -109,10 +109,19 @@ def judge(layers, stmts, drives, loop, resolve_held=False):
     for fl in info.get("out_flags", []):
         if not fl:
             bad = ("future yielded outward with its blocking flag clear", "flag True", "flag False")
+    mon_excluded = any(x in ("mon", "bmon", "masend") for x in layers) and outs_b[:1] == ["x:OOBData"]
+    if mon_excluded:
+        # the awaited coroutine itself raises OOBData from its very first step: outside "no out-of-band
+        # data is sent" (NoOOBFirst; theorem monitor_oob_first_excluded); model correspondence still compares
+        tags.add("excluded:OOBData-from-first-step-under-Monitor")
+    if "x:OOBData" in outs_b or "cOOBData" in b["log"]:
+        tags.add("OOBData-not-addressed-to-a-monitor")
+    if any(d == "t:FE" for d in rd):
+        tags.add("falsy-exception-thrown")
     if bad is None and info.get("held_probe_fail"):
         bad = ("a Future held by CoroStart cannot be awaited by anybody else (blocking flag left set)",
                "second awaiter is suspended on the future", info["held_probe_fail"])
-    if bad is None:
+    if bad is None and not mon_excluded:
         if special:
             if not outs_b or not outs_b[0].startswith("y:"):
                 tags.add("skipped:coroutine-finished-in-start")
@@ -164,6 +173,8 @@ def shrink(layers, stmts, drives, loop, rh=False):
 
 
 def key_of(layers, drives, bad):
+    if "FE" in str(bad[1]) and "FE" not in str(bad[2]) and any(cm.is_eager(x) or x == "coro_await" for x in layers):
+        return "c02:CoroStart:falsy-exception"        # a falsy exception instance tested with `if exc:`
     if "held by CoroStart" in bad[0]:
         return "c02:CoroStart:held-future-blocking"
     kinds = sorted({x.split(":")[0] for x in layers})
